@@ -480,7 +480,13 @@ Definition judge (p : str) (sfx : option str) (rules : list rule) (expires : lis
         match expected with
         | WFinal fr =>
           (* an origin that names the requested URL in its answer: the URL this request maps to, query included *)
-          let fr_body := if str_eqb (rs_body fr) s_echo_url then echo_body (out_url t (q_query q)) else rs_body fr in
+          let varies := existsb (fun v => contains (to_lower v) (bytes "origin")) (hvalues (rs_hdrs fr) (bytes "Vary")) in
+          let fr_body := if str_eqb (rs_body fr) s_echo_url then echo_body (out_url t (q_query q))
+                         else if str_eqb (rs_body fr) s_echo_origin then
+                           (* a resource that varies by Origin and says so: each Origin its own; one that does not say so
+                              may be shared - whatever was served is accepted *)
+                           (if varies then echo_origin_body (hget (q_hdrs q) (bytes "Origin")) else cobs_body o)
+                         else rs_body fr in
           if str_eqb (cobs_kind o) (bytes "origin") && (cobs_status o =? 200) && (rs_status fr =? 200)
              && negb (str_eqb (cobs_body o) fr_body)
           then verdict_kf false "the client received a response that was generated for a different resource" kf
